@@ -8,6 +8,8 @@ code and of the model): the faulted build must raise; for positional accessors e
 raise and every in-range one must read / write exactly the entry `species*size + (x + y*w + z*w*h)` (state compared
 before / after).  Correspondence: the model's answer for the faulted component (op `validate`) against raise-or-not
 of the real code.
+Call histories (`units_object_histories`): objects the package hands out are the caller's; editing them in place must never change
+which later quantities a field refuses (same oracle: dimension of the text differs from the field's -> exception).
 """
 import copy, itertools, os
 from fractions import Fraction
@@ -21,7 +23,10 @@ RULE = ("valid nested script dictionaries (1-3 species, 0-3 reactions, 1-3 envir
         "units declared at random levels, random aliases, scalar / text / per-environment quantities) x one injected fault "
         "(class x location); exhaustive positional sweep: every linear index in [-size-2, ns*size+2] and every triple in "
         "[-2..w+1]x[-2..h+1]x[-2..d+1] on every grid <= 3^3 (thorough; quick: all shapes, 3 random species/accessor combos) and graphs <= 6 nodes; "
-        "a case is non-trivial when the input is invalid or addresses an entry; distinct by (class, location, model shape)")
+        "a case is non-trivial when the input is invalid or addresses an entry; distinct by (class, location, model shape); "
+        "call histories: a units object handed out by one of 13 public calls (parse_units, Units(text), UnitValue/UnitArray .units, stored field "
+        "units, the *_units_dimensions helpers, ...) is edited in place by its owner (5 kinds of edit), optionally used, then quantities written "
+        "with the same unit text go to 14 fields x constructor/setter x 6 quantity forms: every one of another dimension than its field must raise")
 ASSUMPTIONS = [
     "a negative environment index is not counted as 'beyond the list' (Python tuple indexing wraps it); only indices >= number of environments are demanded to raise",
     "positions are Python ints (floats are truncated by int() in the code; not generated)",
@@ -1114,6 +1119,9 @@ def run(ctx):
     # ---------------------------------------------------------------- 2c. a network object re-used with another species list
     species_reuse(ctx)
 
+    # ---------------------------------------------------------------- 2d. units objects handed out, edited by their owner, then quantities
+    units_object_histories(ctx)
+
     # ---------------------------------------------------------------- 3. positional sweep
     positional_sweep(ctx)
 
@@ -1646,6 +1654,286 @@ def species_reuse(ctx):
             ctx.disagree("validate:access-after-species-replaced", case, got.get("value"), r)
 
 
+# ---------------------------------------------------------------------------------------------
+# call histories: a units object the package handed out is edited in place by its owner; the dimension check of every
+# later quantity must not depend on it
+# ---------------------------------------------------------------------------------------------
+DIM_KEYS = ["space", "time", "quantity"]
+DIM_FUNCTIONS = {(-3, 0, 1): "density_units_dimensions", (2, 0, 0): "surface_units_dimensions", (3, 0, 0): "volume_units_dimensions",
+                 (0, 0, 1): "quantity_units_dimensions", (1, 0, 0): "space_units_dimensions", (0, 1, 0): "time_units_dimensions"}
+# public calls that hand a units object to the caller (the object is the caller's from then on)
+UNITS_PRODUCERS = ["parse_units", "Units(text)", "parse_unitvalue.units", "UnitValue(v,text).units", "UnitValue(text).units", "UnitArray.units",
+                   "Units.copy", "Units.multiply", "stored-field.units", "stored-field.copy.units", "dimension-function", "Units(sys,dim).dim",
+                   "kf_units_dimensions"]
+UNITS_EDITS = ["dim[k]=", "dim.k=", "dim=UnitsDimensions", "dim=dict", "sys[k]="]
+QUANTITY_FORMS = ["text", "UnitValue(v,text)", "UnitValue(text)", "UnitValue(v,Units(text))", "parse_unitvalue", "UnitValue(v,parse_units)"]
+HISTORY_FIELDS = {"Species.D": (2, -1, 0), "Species.density": (-3, 0, 1), "RDGridSpace.cell_vol": (3, 0, 0), "RDGraphSpaceNode.volume": (3, 0, 0),
+                  "RDGraphSpaceEdge.surface": (2, 0, 0), "RDGraphSpaceEdge.distance": (1, 0, 0), "RDScript.time_step": (0, 1, 0),
+                  "RDScript.t_max": (0, 1, 0), "RDScript.sampling_interval": (0, 1, 0), "RDSystem.set_state": (0, 0, 1),
+                  "Reaction.kf/1": k_dim(1), "Reaction.kf/2": k_dim(2), "Reaction.kf/3": k_dim(3), "Reaction.kr/2": k_dim(2)}
+assert all(HISTORY_FIELDS[f] == d for f, d in SPEC_DIM.items() if f in HISTORY_FIELDS)
+STOICH = {"Reaction.kf/1": "A -> B", "Reaction.kf/2": "A + B -> C", "Reaction.kf/3": "2 A + B -> C", "Reaction.kr/2": "A -> B + C"}
+
+
+def units_snap(u):
+    return [[str(u.sys[k]) for k in DIM_KEYS], [int(u.dim[k]) for k in DIM_KEYS]]
+
+
+def quantity_of(form, v, text):
+    """the quantity `v text` in one of the public forms a field accepts (built at the moment of use)"""
+    from strengths.units import UnitValue, Units, parse_unitvalue, parse_units
+    if form == "text":
+        return "%r %s" % (v, text)
+    if form == "UnitValue(v,text)":
+        return UnitValue(v, text)
+    if form == "UnitValue(text)":
+        return UnitValue("%r %s" % (v, text))
+    if form == "UnitValue(v,Units(text))":
+        return UnitValue(v, Units(text))
+    if form == "UnitValue(v,parse_units)":
+        return UnitValue(v, parse_units(text))
+    if form == "parse_unitvalue":
+        return parse_unitvalue("%r %s" % (v, text))
+    raise ValueError(form)
+
+
+def field_store(field, route, q):
+    """give the quantity q to `field` (through the constructor or the setter of a default-built object); returns what the
+    object then holds for that field"""
+    from strengths.rdnetwork import Species, Reaction
+    from strengths.rdspace import RDGridSpace
+    from strengths.rdgraphspace import RDGraphSpaceNode, RDGraphSpaceEdge
+    from strengths.rdscript import RDScript
+    cls, attr = field.split("/")[0].split(".")
+    if cls == "RDSystem":
+        rds0, _, _, _ = make_system("grid", (2, 1, 1), ["A"])
+        rds0.set_state("A", 1, q)
+        return rds0.get_state("A", 1)
+    if cls == "RDScript":
+        rds0, _, _, _ = make_system("grid", (1, 1, 1), ["A"])
+        if route == "ctor":
+            return getattr(RDScript(rds0, [1.0], **{attr: q}), attr)
+        obj = RDScript(rds0, [1.0])
+    elif cls == "Reaction":
+        if route == "ctor":
+            return getattr(Reaction(STOICH[field], **{attr: q}), attr)
+        obj = Reaction(STOICH[field])
+    else:
+        mk = {"Species": lambda **kw: Species("A", **kw), "RDGridSpace": lambda **kw: RDGridSpace(2, 1, 1, **kw),
+              "RDGraphSpaceNode": lambda **kw: RDGraphSpaceNode(**kw), "RDGraphSpaceEdge": lambda **kw: RDGraphSpaceEdge(0, 1, **kw)}[cls]
+        if route == "ctor":
+            return getattr(mk(**{attr: q}), attr)
+        obj = mk()
+    setattr(obj, attr, q)
+    return getattr(obj, attr)
+
+
+def produce_units(producer, sys, dim, v, field):
+    """the object a public call hands out for the units (sys, dim): a Units or a UnitsDimensions"""
+    import strengths.units as U
+    from strengths.rdnetwork import Reaction
+    text = units_text(sys, dim)
+    if producer == "parse_units":
+        return U.parse_units(text)
+    if producer == "Units(text)":
+        return U.Units(text)
+    if producer == "parse_unitvalue.units":
+        return U.parse_unitvalue("%r %s" % (v, text)).units
+    if producer == "UnitValue(v,text).units":
+        return U.UnitValue(v, text).units
+    if producer == "UnitValue(text).units":
+        return U.UnitValue("%r %s" % (v, text)).units
+    if producer == "UnitArray.units":
+        return U.UnitArray([v, v], text).units
+    if producer == "Units.copy":
+        return U.parse_units(text).copy()
+    if producer == "Units.multiply":
+        u_ = U.parse_units(text)
+        return u_.multiply(U.Units(u_.sys, U.UnitsDimensions()))
+    if producer == "stored-field.units":
+        return field_store(field, "ctor", "%r %s" % (v, text)).units
+    if producer == "stored-field.copy.units":
+        return field_store(field, "setter", "%r %s" % (v, text)).copy().units
+    if producer == "dimension-function":
+        return getattr(U, DIM_FUNCTIONS[tuple(dim)])()
+    if producer == "Units(sys,dim).dim":
+        return U.Units(U.UnitsSystem(*eff(sys, dim)), U.UnitsDimensions(*dim)).dim
+    if producer == "kf_units_dimensions":
+        r = Reaction(STOICH[field])
+        return r.kf_units_dimensions() if ".kf" in field else r.kr_units_dimensions()
+    raise ValueError(producer)
+
+
+def edit_units(obj, edit, sys2, dim2):
+    """the owner of `obj` edits it in place through its public attributes so that it reads (sys2, dim2)"""
+    from strengths.units import Units, UnitsDimensions
+    d = obj.dim if type(obj) is Units else obj
+    if edit == "sys[k]=":
+        for k, sym in zip(DIM_KEYS, sys2):
+            obj.sys[k] = sym
+        return
+    if edit in ("dim[k]=", "dim.k=") or type(obj) is not Units:
+        for k, e in zip(DIM_KEYS, dim2):
+            if int(d[k]) != e:
+                if edit == "dim.k=":
+                    setattr(d, k, e)
+                else:
+                    d[k] = e
+    elif edit == "dim=UnitsDimensions":
+        obj.dim = UnitsDimensions(*dim2)
+    else:
+        obj.dim = dict(zip(DIM_KEYS, dim2))
+
+
+def run_units_history(case):
+    """producer call(s) -> in-place edit of the returned object -> (optional) legitimate use of the edited object -> probes.
+    Returns {"own": what the edited object reads, "second": a second result fetched BEFORE the edit, re-read after it,
+    "fresh": the same producer call made after the edit, "probes": [[status, stored | exception name]]}"""
+    from strengths.units import Units, UnitValue
+    sys1, dim1, sys2, dim2, v = case["sys"], case["dim"], case["sys2"], case["dim2"], case["v"]
+    out = {}
+
+    def snap(o):
+        return units_snap(o) if type(o) is Units else [None, [int(o[k]) for k in DIM_KEYS]]
+    try:
+        mine = produce_units(case["producer"], sys1, dim1, v, case["field"])
+        second = produce_units(case["producer"], sys1, dim1, v, case["field"])
+        out["before"] = snap(mine)
+        edit_units(mine, case["edit"], sys2, dim2)
+        out["own"] = snap(mine)
+        if case.get("use") and type(mine) is Units:
+            st_, x_ = call_value(lambda: field_store(case["use"], "ctor", UnitValue(v, mine)))
+            out["use"] = [st_, x_]
+        out["second"] = snap(second)
+        out["fresh"] = snap(produce_units(case["producer"], sys1, dim1, v, case["field"]))
+    except Exception as ex:  # noqa
+        out["history_error"] = "%s: %s" % (type(ex).__name__, str(ex)[:80])
+    out["probes"] = []
+    for field, route, form, text, pv in case["probes"]:
+        st, x = call_value(lambda: field_store(field, route, quantity_of(form, pv, text)))
+        out["probes"].append([st, x])
+    return out
+
+
+def call_value(f):
+    try:
+        x = f()
+    except Exception as ex:  # noqa
+        return "error", type(ex).__name__
+    try:
+        return "ok", [float(x.value)] + units_snap(x.units)
+    except Exception as ex:  # noqa
+        return "ok", "unreadable result %s (%s)" % (type(x).__name__, type(ex).__name__)
+
+
+def units_history_verdict(case, got):
+    """oracle of one history: every probe whose unit text has another dimension than its field must have raised"""
+    fails = []
+    for (field, route, form, text, pv), pdim, (st, x) in zip(case["probes"], case["probe_dims"], got["probes"]):
+        if tuple(pdim) != tuple(HISTORY_FIELDS[field]) and st == "ok":
+            fails.append(("dimension-after-edited-units-object@%s" % field.split("/")[0],
+                          "%s given %r (dimension %s, field demands %s) as %s through the %s was accepted (stored %r) after the object returned by "
+                          "%s for %r had been edited in place (%s) by its owner" % (field, "%r %s" % (pv, text), list(pdim), list(HISTORY_FIELDS[field]), form, route, x,
+                                                                                  case["producer"], units_text(case["sys"], case["dim"]), case["edit"])))
+    return fails
+
+
+def gen_units_history(rng):
+    fields = sorted(HISTORY_FIELDS)
+    f1 = rng.choice(fields)
+    dim1 = HISTORY_FIELDS[f1]
+    producer = rng.choice(UNITS_PRODUCERS)
+    if producer == "dimension-function" and dim1 not in DIM_FUNCTIONS:
+        producer = "parse_units"
+    if producer == "kf_units_dimensions" and not f1.startswith("Reaction"):
+        producer = "Units(text)"
+    if producer.startswith("stored-field") and f1 == "RDSystem.set_state":
+        producer = "UnitArray.units"        # an entry of the state is stored in the units of the state, not in those of the text
+    f2 = rng.choice([f for f in fields if HISTORY_FIELDS[f] != dim1])
+    dim2 = HISTORY_FIELDS[f2]
+    sys1 = rand_sys(rng)
+    edit = rng.choice(UNITS_EDITS)
+    sys2 = list(sys1)
+    if edit == "sys[k]=":
+        if producer in ("dimension-function", "Units(sys,dim).dim", "kf_units_dimensions"):
+            edit = "dim[k]="
+        else:
+            for k, pool in enumerate((SPACE, TIME, QTY)):
+                if dim1[k] != 0 or rng.random() < 0.3:
+                    sys2[k] = rng.choice([x for x in pool if x != sys1[k]])
+            dim2 = dim1
+    v = float(rng.randint(1, 40)) / rng.choice([1, 2, 4])
+    t1, t2 = units_text(sys1, dim1), units_text(sys1, HISTORY_FIELDS[f2])
+    f3 = rng.choice([f for f in fields if HISTORY_FIELDS[f] not in (dim1,)])
+    f1b = rng.choice([f for f in fields if HISTORY_FIELDS[f] == dim1])
+
+    def probe(field, text, dim):
+        return [field, rng.choice(["ctor", "setter"]), rng.choice(QUANTITY_FORMS), text, float(rng.randint(0, 9))], list(dim)
+    # the unit text of the history in the field of the edited dimension (invalid) and in its own field (valid); the text of the
+    # edited dimension in the field of the original one (invalid) and in its own (valid); the text in an unrelated field
+    plist = [probe(f2, t1, dim1), probe(f1b, t1, dim1), probe(f1, t2, HISTORY_FIELDS[f2]), probe(f2, t2, HISTORY_FIELDS[f2]), probe(f3, t1, dim1)]
+    rng.shuffle(plist)
+    return {"kind": "units-history", "producer": producer, "field": f1, "sys": list(sys1), "dim": list(dim1), "edit": edit, "sys2": list(sys2),
+            "dim2": list(dim2), "v": v, "use": f2 if (edit != "sys[k]=" and rng.random() < 0.5) else None,
+            "probes": [p for p, _ in plist], "probe_dims": [d for _, d in plist]}
+
+
+def units_object_histories(ctx, n=None):
+    """a units object obtained from a public call is the caller's: he edits it in place (another dimension / another symbol), may use
+    it, and afterwards quantities written with the same unit text are handed to fields of every dimension.  Oracle: a quantity whose
+    dimension differs from the field's raises, whatever was done to objects handed out before.  Correspondence: the (history-free)
+    model's verdict and stored units for every probe; a second result fetched before the edit and a fresh one fetched after it read
+    as the text says (no aliasing between results)."""
+    rng = ctx.rng
+    cases, ops = [], []
+    for i in range(n if n is not None else ctx.n(260, 6000)):
+        case = gen_units_history(rng)
+        cases.append(case)
+        for (field, route, form, text, pv) in case["probes"]:
+            ops.append({"op": "validate", "kind": "field_dim", "dim": list(HISTORY_FIELDS[field]), "sys": sysj(DEFAULT_SYS),
+                        "v": {"text": {"v": rstr(pv), "u": text}}})
+    res = ctx.model.run(ops)
+    at = 0
+    for case in cases:
+        got = run_units_history(case)
+        rs = res[at:at + len(case["probes"])]
+        at += len(case["probes"])
+        ctx.case(("units-history", case["producer"], case["edit"], case["field"], tuple(case["sys"]), tuple(case["dim2"]), tuple(case["sys2"]),
+                  tuple(tuple(p[:4]) for p in case["probes"])), nontrivial=True,
+                 sample={"producer": case["producer"], "text": units_text(case["sys"], case["dim"]), "edit": case["edit"], "own": got.get("own")})
+        ctx.count("units_history_" + case["producer"])
+        ctx.count("units_history_edit_" + case["edit"])
+        for key, what in units_history_verdict(case, got):
+            report(ctx, key, what, case, impl=got, expected="exception")
+        if "history_error" in got:
+            ctx.count("units_history_not_completed")
+            ctx.disagree("validate:units-history", case, got["history_error"], {"ok": "every step of the history is a documented call"})
+            continue
+        spec = [list(eff(case["sys"], case["dim"])), list(case["dim"])]
+        for which in ("second", "fresh"):
+            g = got[which]
+            if g[1] != spec[1] or (g[0] is not None and g[0] != spec[0]):
+                ctx.disagree("validate:units-history-" + which, case, got, {"ok": spec})
+        if got.get("use") and got["use"][0] != "ok":
+            ctx.count("units_history_own_object_refused")
+        for (field, route, form, text, pv), pdim, (st, x), r in zip(case["probes"], case["probe_dims"], got["probes"], rs):
+            valid = tuple(pdim) == tuple(HISTORY_FIELDS[field])
+            ctx.count("units_history_probe_" + ("valid" if valid else "invalid"))
+            if r is None:
+                continue
+            if ("error" in r) != (st == "error"):
+                ctx.disagree("validate:dimension-after-history", dict(case, probe=[field, route, form, text, pv]), [st, x], r)
+            elif "ok" in r and isinstance(x, list):
+                u = r["ok"]["u"]
+                mdim = [int(e) for e in u["dim"]]
+                msys = [u["sys"][k] for k in DIM_KEYS]
+                same_sys = all(a == b for a, b, e in zip(x[1], msys, mdim) if e != 0)
+                if field == "RDSystem.set_state":       # stored converted to the units of the state: the dimension is what can be compared
+                    same_sys, x = True, [rparse(r["ok"]["v"]), x[1], x[2]]
+                if x[2] != mdim or not same_sys or not close(x[0], rparse(r["ok"]["v"]), rel=1e-12):
+                    ctx.disagree("validate:stored-after-history", dict(case, probe=[field, route, form, text, pv]), x, r)
+
+
 def positional_sweep(ctx):
     rng = ctx.rng
     shapes = [(w, h, d) for w in (1, 2, 3) for h in (1, 2, 3) for d in (1, 2, 3)]
@@ -1743,6 +2031,11 @@ def positional_sweep(ctx):
                     ctx.disagree("validate:set_entry", case, after, r)
 
 
+def search(ctx):
+    """an obligation broke and no input failed yet: the call-history stream at thorough size"""
+    units_object_histories(ctx, 6000)
+
+
 def replay(ctx, rec):
     case = rec.get("case", rec)
     kind = case.get("kind")
@@ -1784,6 +2077,10 @@ def replay(ctx, rec):
     if kind == "engine-option":
         st, exc = engine_setup(case["option"], case["graph"])
         return not (case["invalid"] and st == "ok"), {"case": case, "impl": [st, exc], "expected": "exception" if case["invalid"] else "accepted"}
+    if kind == "units-history":
+        got = run_units_history(case)
+        fails = units_history_verdict(case, got)
+        return (not fails), {"case": case, "impl": got, "failures": fails}
     if kind == "direct":
         st, detail = thunk_of(case["op"])
         fails = direct_verdict(case["class"], case["invalid"], st, detail)
